@@ -18,7 +18,7 @@ KEY_POOL_ODD = ["line\u2028sep", "para\u2029sep", "nel\x85key", "tab\tastral\U00
 # method parameters: the generated class name / __init__ signature is where they matter
 KEY_POOL_PREFIXED = ["$ref", "@context", "#text", "#1st", "(2nd) place", "self", "cls", "%used", "<tag>", "~tilde",
                      # reserved only after the symbol is removed and the rest is capitalised
-                     "$union", "$literal", "@baseModel", "#optional", "$list", "$field"]
+                     "$union", "$literal", "@baseModel", "#optional", "$list", "$field", "$none", "@true", "#false", "-none", "$pk", "pk#", "$id"]
 KEY_POOL_FULL = KEY_POOL_QUICK + KEY_POOL_ODD + [
     "None", "True", "import", "lambda", "object", "str", "int", "dict", "set", "Union", "Dict", "Literal", "Tuple",
     "validator", "fields", "copy", "schema", "date", "datetime", "time", "naïve", "été", "αβγ",
@@ -32,7 +32,7 @@ def reserved_variants():
     a sanitiser that checks the raw key, or checks before / after the wrong conversion step, shows up on exactly these"""
     import inflection
     bases = ["json", "copy", "validate", "parse_obj", "schema_json", "from_orm", "dict", "construct", "update_forward_refs", "config",
-             "list", "field", "optional", "class", "none", "true", "any", "union", "base_model", "dataclass", "attr", "date", "datetime", "type", "id"]
+             "list", "field", "optional", "class", "none", "true", "any", "union", "base_model", "dataclass", "attr", "date", "datetime", "type", "id", "pk", "false", "self"]
     out = []
     for b in bases:
         for v in (b, b.upper(), b.capitalize(), inflection.camelize(b, False), inflection.camelize(b, True), b.replace("_", "-"), b + "s"):
